@@ -1,3 +1,16 @@
 -- GENERATED: axiom audit of the property theorems of C51
 import SquidModel.Properties.C51
+#print axioms SquidModel.C51.run_refines
+#print axioms SquidModel.C51.never_faults
+#print axioms SquidModel.C51.mem_le_limit
+#print axioms SquidModel.C51.trim_purges_lru_suffix
+#print axioms SquidModel.C51.stamps_erase
+#print axioms SquidModel.C51.traversal_is_recency_order
+#print axioms SquidModel.C51.add_purges_least_recent
+#print axioms SquidModel.C51.setLimit_purges_least_recent
+#print axioms SquidModel.C51.get_after_add
+#print axioms SquidModel.C51.get_after_expiry
+#print axioms SquidModel.C51.rejected_add_discards
 #print axioms SquidModel.C51.memory_counted_exact
+#print axioms SquidModel.C51.expiry_saturation_invisible
+#print axioms SquidModel.C51.negative_clock_never_expires
